@@ -167,6 +167,12 @@ DIRECTED = [
      ("link", [(1, [1])]), ("link", [(2, [1]), (1, [1])]), ("enable", True, [1, 7]), ("enable", True, [7, 1]), ("request", 1)],
     # delete and define the same id in one request; define twice in one request
     [("define", [(1, [10])]), ("define", [(1, []), (1, [20])]), ("define", [(2, [10]), (2, [20])]), ("link", [("ce", [2])]), ("enable", True, ["ce"]), ("request", "ce"), ("trigger", "ce")],
+    # a report linked to several events is deleted: every event loses it
+    [("define", [(1, [10]), (2, [20])]), ("link", [(1, [1]), (2, [1, 2]), ("ce", [2, 1])]), ("enable", True, []), ("define", [(1, [])]), ("request", 1), ("request", 2), ("request", "ce"),
+     ("trigger", 2), ("define", [(2, [])]), ("request", 2), ("request", "ce")],
+    # refused requests that also contain an unlink / delete entry: nothing may happen
+    [("define", [(1, [10]), (2, [20])]), ("link", [(1, [1]), (2, [2])]), ("enable", True, []), ("link", [(1, []), (1, [9])]), ("request", 1), ("link", [(2, []), (7, [1])]), ("request", 2),
+     ("link", [(1, []), (2, [2])]), ("request", 1), ("define", [(1, []), (2, [20])]), ("request", 1), ("define", [(1, []), ("r", [99])]), ("request", 1), ("define", [(2, []), (1, [10])]), ("request", 2)],
     # unlink, relink: the enabled flag
     [("define", [(1, [10])]), ("link", [(1, [1])]), ("enable", True, []), ("link", [(1, [])]), ("link", [(1, [1])]), ("request", 1), ("trigger", 1), ("enable", False, [1]), ("request", 1)],
 ]
@@ -174,7 +180,7 @@ DIRECTED = [
 
 def gen_cases(rnd, tier):
     cases = [("directed", d) for d in DIRECTED]
-    n = 60 if tier == "quick" else 500
+    n = 120 if tier == "quick" else 800
     for _ in range(n):
         cases.append(("random", rand_ops(rnd, rnd.randint(2, 14 if tier == "quick" else 40))))
     return cases
@@ -229,7 +235,14 @@ def run(tier, replay=None):
         return report.finish()
     rnd = common.rng("c12")
     cases = gen_cases(rnd, tier)
-    lits = [case_lit(o) for _k, o in cases]
+    wedged, kept, lits = [], [], []
+    for c in cases:
+        lit = common.guarded(lambda c=c: case_lit(c[1]), repr(c[1]), wedged)
+        if lit is not None:
+            kept.append(c)
+            lits.append(lit)
+    cases = kept
+    common.report_wedged(report, wedged, proof)
     bad, stats = evaluate(lits, "c12")
     spec_bad = [(i, m, sc) for i, m, sc in bad if sc >= 30]
     model_bad = [(i, m, sc) for i, m, sc in bad if m >= 10 and sc < 30]
